@@ -7,6 +7,10 @@ BASE = json.load(open("/root/.vp/BASELINE.json"))["cmd"] if Path("/root/.vp/BASE
     "cd /repo && /venv/bin/python -m pytest -ra -q -p no:cacheprovider --timeout=900 --continue-on-collection-errors --junitxml=<file>"
 
 CHECKS = {
+ "C17": dict(cat="exploration", ref="§C17, §1.1",
+    tech="property-based testing (Hypothesis) over generated WSDL 1.1 / SOAP 1.1 definitions with a reference model of the prescribed envelopes (written from the WsdlSpec alone) and a recording Transport: oracles = service-description fields against the spec, strict parse of the prescribed request into the generated input class, infoset equality of the posted payload with the prescribed request, required HTTP headers and endpoint, and round trip of canned responses and faults through Client.send",
+    text="Generated search over definitions (1-4 operations, document/rpc style, parts by element or by builtin/complex type, optional soap:header and fault, inline or imported schema, varied namespaces, endpoints and SOAPAction strings) and generator options; per operation one request, one response and one fault envelope. Searched, not proved.",
+    note="Stand-ins for click/jinja2/toposort/requests, no ruff; the transport is a recording implementation of xsdata's Transport interface (no network). Output messages are named <operation>Response so that the operation-name and message-name readings of the rpc response wrapper coincide (SOAP 1.1 section 7.1 leaves that name open)."),
  "C16": dict(cat="exploration", ref="§C16, §1.1",
     tech="property-based testing (Hypothesis) over generated DTDs: a DtdSpec generator renders the external DTD and builds documents valid by construction; oracles = libxml2 DTD validation of inputs and (in the order-preserving fragment) outputs, and equality of the infosets of doc and serialize(parse(doc)) as libxml2 reports them with the DTD's attribute defaults and fixed values applied",
     text="Generated search over DTDs (EMPTY, ANY, #PCDATA, mixed, nested sequences/choices with ?, *, + on elements and groups; CDATA, ID, IDREF(S), NMTOKEN(S) and enumerated attributes with #REQUIRED/#IMPLIED/#FIXED/default), 1-3 documents each and generator options. Generation must succeed and import, every document must parse strictly, and the default-augmented infoset must survive the round trip (ordered and DTD-valid where repetition is confined to single elements and, with compound fields, choices of single elements). Searched, not proved.",
